@@ -75,6 +75,7 @@ class Stats:
         self.samples = []
         self.excluded = {}        # known-finding regions excluded by construction, counted
         self.max_samples = 6
+        self.enumerated_nontrivial = 0   # distinct by construction (disjoint partitions of an enumeration)
 
     def cls(self, name, n=1):
         self.classes[name] = self.classes.get(name, 0) + n
@@ -93,7 +94,8 @@ class Stats:
 
     def to_json(self):
         return {"evaluations": self.evaluations, "inner": self.inner, "classes": self.classes,
-                "nontrivial": sorted(self.nontrivial), "samples": self.samples, "excluded": self.excluded}
+                "nontrivial": sorted(self.nontrivial), "samples": self.samples, "excluded": self.excluded,
+                "enumerated_nontrivial": self.enumerated_nontrivial}
 
 
 class Prop:
@@ -123,6 +125,11 @@ class Prop:
     def shrink_candidates(self, case):
         """smaller variants of a crashing case (sanitizer aborts bypass Hypothesis shrinking)"""
         return []
+
+    def prelude(self, lib, stats, index, nworkers, tier):
+        """deterministic work done once per worker before the Hypothesis search (exhaustive enumerations);
+        raises Violation(msg, key, detail={'case': ...}) with a replayable case"""
+        return None
 
     def finding_key(self, case, violation):
         return violation.key
